@@ -6,6 +6,7 @@ which that property's check observes it. Patterns are as wide as the mechanism a
 import json, sys
 
 FIXED = [
+ ("C13","6e941ca","gobuild/field-name/{trailing-underscore,leading-underscore,double-underscore,digit-after-underscore,kw-string}/path/*","compile|vet","the Go client derived the Go field name of a path variable with its own snake-to-camel conversion instead of protoc-gen-go's: names with digits after underscores, leading/trailing/double underscores did not compile; a field named `string` resolved to the String method"),
  ("C01","6e941ca","deliver/place/path/*/optional/*","handler-not-reached|request-changed","the Go client formatted the struct member of a path variable (fmt.Sprint(req.ValX)): for a proto3 optional field that is a pointer, so the path carried the pointer's address (/pl/o3/0xc00001a0b8/tail) and the server answered 400 or bound the address text"),
  ("C04","3399969","codec/ts_unix_{seconds,millis}/*@*ts-year-1{500,677}","roundtrip-changed|canon-changed","UNIX_SECONDS/UNIX_MILLIS decoders built the intermediate time in the process's local zone and re-rendered it as RFC 3339 (offsets without seconds): under a zone whose offset at that instant has a seconds part (Asia/Kolkata +05:53:28 before 1906) {\"v\":-14831769600000} decoded to seconds:-14831769572"),
  ("C19","7dd3c12","rules/numeric-{gte,gt,lte,lt,gte+lte,gt+lt,gte=lte}/float/bound=inexact","schema-rejects-what-rules-accept","float32 rule bounds were widened with float64(): a bound such as 3.14159 was published as 3.141590118408203, so the JSON form of a value equal to the bound compared unequal to the published minimum/maximum"),
@@ -290,10 +291,6 @@ mech("header-helper-name-collisions",
 mech("go-client-header-option-identifiers",
  "Go client turns header names into option function names without sanitising: a header name containing a dot yields Go source that does not parse (protogen: unparsable Go source), so go-client emits nothing for the file",
  [("C13","gobuild/header-name/dot/*",["unparsable-go-source"],None)])
-
-mech("client-path-field-go-name",
- "Go client derives the Go field name of a path variable with its own snake-to-camel conversion instead of protoc-gen-go's: names with digits after underscores, leading/trailing/double underscores do not compile; a field named `string` resolves to the String method",
- [("C13","gobuild/field-name/{trailing-underscore,leading-underscore,double-underscore,digit-after-underscore}/path/*",["compile"],None),("C13","gobuild/field-name/kw-string/path/*",["vet"],None)])
 
 mech("ts-header-option-identifiers",
  "TS client turns header names into option identifiers without sanitising: a name starting with a digit or containing a dot yields invalid TypeScript",
